@@ -225,6 +225,7 @@ def run(ctx):
     special_shapes(ctx)
     derived_and_separator(ctx)
     occurrences_roots_and_independence(ctx)
+    nested_children_like_their_type(ctx)
     answers = ctx.driver.ask(reqs)
     for ans, (meta, got, exp) in zip(answers, metas):
         model = SM.py_canon_model(ans)
@@ -438,7 +439,9 @@ def occurrences_roots_and_independence(ctx):
                 ctx.fail("a member of the created object is missing from its iteration / len / `in`", meta, seen,
                          [keys, len(keys), True], kind="special")
     # unknown names of every kind raise TypeNotFound (an attribute step written @name included)
-    for name in ("Occ.@nosuch", "order.@nosuch", "Doc2.@nosuch", "Occ.in.@zz", "Occ.nosuch", "NoSuch.@id"):
+    for name in ("Occ.@nosuch", "order.@nosuch", "Doc2.@nosuch", "Occ.in.@zz", "Occ.nosuch", "NoSuch.@id",
+                 # an unknown step in the middle, followed by a name the last known node does have
+                 "Occ.nosuch.in", "order.nosuch.in", "Occ.in.nosuch.z", "order.nosuch.nosuch.a", "Occ.nosuch.@id"):
         meta = {"stream": "unknown-names", "name": name}
         ctx.case(common.canon(meta), True)
         for spelled in (T + name, name):
@@ -477,6 +480,66 @@ def occurrences_roots_and_independence(ctx):
                 (ref is not None and not K.same_value(third, ref)):
             ctx.fail("a created object shows changes made to an object created earlier", meta, repr(got)[:600],
                      "a fresh object", kind="special")
+
+
+def nested_children_like_their_type(ctx):
+    """A complex child that create() builds inside its parent is an object of its type like one created by itself:
+    the same members in the same order - also after a choice branch is filled in later and another deleted."""
+    T = "{%s}" % wsdlkit.TNS
+    schema = ('<xsd:complexType name="Nest"><xsd:sequence><xsd:element name="first" type="xsd:string"/>'
+              '<xsd:choice><xsd:element name="p" type="xsd:string"/><xsd:element name="q" type="xsd:int"/></xsd:choice>'
+              '<xsd:element name="last" type="xsd:string"/></xsd:sequence><xsd:attribute name="id" type="xsd:string"/>'
+              '<xsd:attribute name="rev" type="xsd:int"/></xsd:complexType>'
+              '<xsd:complexType name="Deep"><xsd:sequence><xsd:element name="nest" type="x:Nest"/></xsd:sequence>'
+              '<xsd:attribute name="k" type="xsd:string"/></xsd:complexType>'
+              '<xsd:complexType name="Outer2"><xsd:sequence><xsd:element name="head" type="xsd:string"/>'
+              '<xsd:element name="nest" type="x:Nest"/><xsd:element name="deep" type="x:Deep"/></xsd:sequence></xsd:complexType>'
+              '<xsd:element name="f"><xsd:complexType><xsd:sequence><xsd:element name="o" type="x:Outer2"/>'
+              '</xsd:sequence></xsd:complexType></xsd:element>')
+    client = wsdlkit.client(wsdlkit.wsdl_doc(schema, "f", None), nosend=True)
+
+    def scenario(o, how):
+        if how in ("fill-q", "fill-q-delete-first"):
+            if "q" in o:
+                del o.q
+            o.q = 5
+        if how == "fill-q-delete-first":
+            del o.first
+            o.first = "again"
+        return [k for k, _v in o]
+    for how in ("as-created", "fill-q", "fill-q-delete-first"):
+        alone = scenario(client.factory.create(T + "Nest"), how)
+        for where, get in (("Outer2.nest", lambda: client.factory.create(T + "Outer2").nest),
+                           ("Outer2.deep.nest", lambda: client.factory.create(T + "Outer2").deep.nest),
+                           ("Deep.nest", lambda: client.factory.create(T + "Deep").nest),
+                           ("path Outer2.nest", lambda: client.factory.create(T + "Outer2.nest"))):
+            meta = {"stream": "nested-like-their-type", "where": where, "how": how}
+            ctx.case(common.canon(meta), True)
+            try:
+                got = scenario(get(), how)
+            except Exception as e:
+                got = "%s: %s" % (type(e).__name__, e)
+            if got != alone:
+                ctx.fail("factory object does not mirror the type's content model", meta, got, alone, kind="special")
+    # ... and the request written from the filled parent has the members in the declared order
+    o = client.factory.create(T + "Outer2")
+    o.head, o.nest.first, o.nest.last, o.deep.nest.first, o.deep.nest.last = "h", "1", "3", "1", "3"
+    for n in (o.nest, o.deep.nest):
+        for k in ("p", "q"):
+            if k in n:
+                delattr(n, k)
+        n.q = 2
+    meta = {"stream": "nested-like-their-type", "where": "request"}
+    ctx.case(common.canon(meta), True)
+    try:
+        from suds.sax.parser import Parser
+        body = Parser().parse(string=wsdlkit.envelope_bytes(client.service.f(o))).root().getChild("Body")
+        onode = body.children[0].children[0]
+        got = [[c.name for c in onode.getChild("nest").children], [c.name for c in onode.getChild("deep").getChild("nest").children]]
+    except Exception as e:
+        got = "%s: %s" % (type(e).__name__, e)
+    if got != [["first", "q", "last"]] * 2:
+        ctx.fail("factory object does not mirror the type's content model", meta, got, [["first", "q", "last"]] * 2, kind="special")
 
 
 def blank_attrs(x):
